@@ -1114,3 +1114,25 @@ package fsm
 //@   before pebble.(*DB).Flush assert [C08.save.noflush+C03] false
 //@   modifies family(G_any_sdata), family(G_any_slen), family(G_any_nmsg), family(G_any_msg), family(G_any_rest)
 //@   loop 0 invariant tw != nil && -1 <= rangeindex && rangeindex < len(list) && c.fsm == old(c.fsm) && c.fsm.fs == old(c.fsm.fs)
+
+// ---------------------------------------------------------------- constructing a table's state machine (C04, C08, C11, C14)
+
+// New's factory: the state machine is built for the table it was asked for - name, shard and replica
+// ids, file system, snapshot format and the applied-index listener are exactly the arguments, and the
+// data directory is derived from the state-machine directory, the host name and "<table>-<shard>"
+//@ import os "os"
+//@ trustframe "os" "go.uber.org/zap"
+//@ uninterp func dbDirOf(base string, host string, name string) string
+//@ func pebble.GetNodeDBDirName
+//@   assumed
+//@   ensures result == dbDirOf(baseDir, hostname, name)
+//@   modifies nothing
+//@ func newMetrics
+//@   assumed
+//@   ensures result != nil && fresh(result)
+//@   modifies nothing
+//@ func New$2
+//@   maypanic
+//@   ensures [C14.new.fields+C04+C08+C11] typeIs(result, *FSM) && asType(result, *FSM) != nil && fresh(asType(result, *FSM)) && asType(result, *FSM).tableName == *tableName && asType(result, *FSM).clusterID == clusterID && asType(result, *FSM).nodeID == nodeID && asType(result, *FSM).fs == *fs && asType(result, *FSM).recoveryType == *srt && asType(result, *FSM).appliedFunc == *af && asType(result, *FSM).metrics != nil && asType(result, *FSM).log != nil
+//@   before pebble.GetNodeDBDirName assert [C04.new.dir] baseDir == *stateMachineDir
+//@   modifies nothing
